@@ -91,4 +91,12 @@ PLAN = {
         "trusted": COMMON_TRUSTED + ["run-time monitors are a bounded stand-in: they cover the shipped configurations for the stated number of events only"],
         "explanation": "bounded run-time monitor of sample times and time-sliced sample states",
     },
+    "C03": {
+        "sidecars": ["contracts.potentials_c03"],
+        "extra": ["contracts.potential_specs_sympy:sympy_units"],
+        "level": "other",
+        "trusted": COMMON_TRUSTED + ["model R: machine arithmetic treated as mathematical", "pow / sqrt are uninterpreted with the sidecar's axioms",
+                                     "sympy (the spec derivatives are d/dx of the spec energies)"],
+        "explanation": "contracts on the derivative routines of the closed-form potentials against spec derivatives; the Ewald lattice-sum clause is not decided",
+    },
 }
